@@ -71,8 +71,24 @@ class C06(F.PropCheck):
         for _ in range(6): evs.append(('ITER', [], b''))
         return F.Case(cid, evs, sorted(set(tags)))
 
+    def gen_alive(self, rng, cid):
+        """5..8 plain relays (no countdown capability: the out-queue findings stay out), 5..n "on for d" alive together, flushed, then expiry"""
+        n = rng.choice([5, 6, 7, 8]); gp = rng.sample(C7.GPIOS, n)
+        rel = [(gp[i], i, rng.choice([0, 0, 16]), 0) for i in range(n)]
+        evs = [C7.cfg_event(1, 1, 0, False, rel, [0] * 8, [], [0]), ('REG', [], b'')]
+        for rnd in range(rng.choice([1, 2])):
+            order = rng.sample(range(n), rng.randrange(5, n + 1)); dmax = 0
+            for i in order:
+                d = rng.randrange(400, 5000); dmax = max(dmax, d)
+                evs.append(('SETV' if rng.random() < 0.8 else 'GRP', [i, 1, d] + ([10 + i] if True else []), b''))
+                if evs[-1][0] == 'GRP': evs[-1] = ('GRP', [i, 1, d], b'')
+                evs += [('ITER', [], b'')] * 3
+            evs.append(('TICK', [dmax * 1000 + rng.choice([200000, 1000000])], b''))
+            evs += [('ITER', [], b'')] * (2 * n + 2)
+        return F.Case(cid, evs, ['alive'])
+
     def gen_cases(self, rng, n, tier):
-        return [self.gen_case(rng, '%s%d' % (tier[0], i), tier) for i in range(n)]
+        return [self.gen_alive(rng, '%s%d' % (tier[0], i)) if i % 15 == 14 else self.gen_case(rng, '%s%d' % (tier[0], i), tier) for i in range(n)]
 
     # ---------------- monitor
     def monitor(self, case, status, outs):
@@ -96,7 +112,11 @@ class C06(F.PropCheck):
         expect_res = []          # (event index, ch, sender, ok) for every set-value request on an existing relay channel
         got_res = []
         blame = {}               # channel / request -> class of the overflow that may have hit it
-        qprev = (0, 0)
+        qprev = (0, 0); tprev = 0
+        OP8 = 8 * C7.relay_op_us()
+        time2 = list(cfg['time2']); timed = {}       # relay index -> (t_cmd, d_ms): "on for d" accepted and not cancelled since
+        inputs = []; rest = cfg['rest']
+        for j in range(rest[0] if rest else 0): inputs.append(tuple(rest[1 + 5 * j: 6 + 5 * j]))
         for o in segs[0] if segs else []:
             if o[0] == 'GPIO' and o[1][1] in pin: pin[o[1][1]] = o[1][2]
         for k, seg in enumerate(segs[1:]):
@@ -109,6 +129,19 @@ class C06(F.PropCheck):
                 elif o[0] == 'VAL': reported[o[1][1]] = o[1][2]
                 elif o[0] == 'RES': got_res.append(tuple(o[1][1:4]))
             if e[0] == 'REG': registered = True; changed = set(); reported = {}
+            if e[0] == 'TIME2' and 0 <= e[1][0] < 8: time2[e[1][0]] = e[1][1]
+            if e[0] == 'BTN' and 0 <= e[1][0] < len(inputs) and inputs[e[1][0]][3] in pinidx: timed.pop(pinidx[inputs[e[1][0]][3]], None)
+            if e[0] in ('SETV', 'GRP') and (e[1][0] & 255) in chidx:
+                i_ = chidx[e[1][0] & 255]; timed.pop(i_, None)
+                if registered and e[1][1] == 1 and 0 < e[1][2] < 2**31 and time2[e[1][0] & 255] == 0: timed[i_] = (tprev, e[1][2])
+            if e[0] == 'TICK' and e[1][0] >= 0:
+                # the countdown callback ran at tprev + dt: every "on for d" whose time is over by then must have switched back
+                for i_, (tc, d) in list(timed.items()):
+                    if tprev + e[1][0] >= tc + (d + 1) * 1000 + OP8:
+                        if level(i_) == 1:
+                            v.append('NO-SWITCH-BACK relay gpio %d is still on %d us after "on for %d ms" (channel %d) although the countdown callback ran after the deadline' %
+                                     (rel[i_][0], tprev + e[1][0] - tc, d, rel[i_][1]))
+                        del timed[i_]
             if e[0] in ('SETV', 'GRP') and registered:
                 ch = e[1][0] & 255
                 if ch in chidx:
@@ -127,7 +160,7 @@ class C06(F.PropCheck):
                     expect_res.append((k, ch, sender & 0xFFFFFFFF if sender < 0 else sender, 0, 'QUEUE-FULL' if drops else None))
             elif drops:
                 for r in rel: blame.setdefault(r[1], 'QUEUE-FULL')
-            q = seg[-1][1]; qprev = (q[1], q[2])
+            q = seg[-1][1]; qprev = (q[1], q[2]); tprev = q[0]
             if registered and qprev == (0, 0):
                 # idle: every reported change equals the real state, every request so far has its one result
                 for ch in sorted(changed):
